@@ -450,8 +450,8 @@ def run_adversarial(plan, stats):
     import bare_script.library as lib
     viols = []
     plan = dict(plan)
-    plan['host_globals'] = pathological_globals() if 'gDeep' in repr(plan['model']) or 'gCyc' in repr(plan['model']) else {}
-    if plan['host_globals']:
+    wants_pathological = 'gDeep' in repr(plan['model']) or 'gCyc' in repr(plan['model'])
+    if wants_pathological:
         stats.probes['pathological_argument_value'] += 1
     dig = []
     outs = {}
@@ -463,10 +463,12 @@ def run_adversarial(plan, stats):
             lib.random = _random.Random(plan.get('seed', 0))
             p = dict(plan)
             p['debug'] = debug
+            # fresh host values for every run: library calls may mutate them (arrayPop(gCyc))
+            p['host_globals'] = pathological_globals() if wants_pathological else {}
             if plan.get('entry') == 'expression':
                 out = run_expressions(p)
             else:
-                out = run_real(p, limit=0, sim_options=True, max_starts=400000, globals_=dict(plan['host_globals']))
+                out = run_real(p, limit=0, sim_options=True, max_starts=400000, globals_=dict(p['host_globals']))
             stats.c['evaluations'] += 1
             stats.faults.update(out.fired or {})
             outs[debug] = out
